@@ -798,7 +798,7 @@ def witness_of(lines, badline, notes):
         w['got'] = bl['pr']
     excs = [n for n in notes if n.startswith('exception in ')]
     if excs:      # 'exception in <handler> handling <event>: <Type>: ...'
-        parts = excs[0].split()
+        parts = excs[-1 if bl['k'] == 'alive' else 0].split()     # a dead loop: what was raised last
         w['exc_in'] = '%s:%s' % (parts[2], parts[5].rstrip(':')) if len(parts) > 5 else ''
     heads = [ln for ln in before if ln['k'] == 'in' and ln['cls'] == 'GoodHead']
     w['after_head'] = bool(heads)
@@ -1240,6 +1240,14 @@ def run(tier, replay=None):
     want = 120 if quick else 800
     per_clause = {}
     per_how = {h: 0 for h in HOWS}
+    for how in HOWS:                  # every kind at least once, whichever trace offers it first
+        for lines in pool:
+            m = mutate_trace(rnd, lines, how)
+            if m:
+                muts.append(m)
+                per_how[how] += 1
+                per_clause[m[1]] = per_clause.get(m[1], 0) + 1
+                break
     for lines in pool:
         if len(muts) >= want:
             break
